@@ -190,12 +190,23 @@ theorem convergence_held (n : Nat) (σ : List Op) (hσ : SingleWriter σ)
 /-! ### without `SingleWriter`
 
   If another clone rewrites the note of a commit it fetched, all repositories still end up
-  with the same note for that commit — but it is the rewriter's, not the author's; and when
+  with the same note for that commit (`agreement`) — but it is the rewriter's, not the author's; and when
   both rewrite concurrently, `ours` keeps each clone's own version until the later push wins.
   So `SingleWriter` is necessary for "the note its author's clone wrote". (git-ai writes a
   note only for the commit being created or rewritten locally — new oid —, so the hypothesis
   describes the implementation; the end-to-end runs exercise foreign rewrites with plain
   `git notes add -f` to validate `mergeVal`.) -/
+
+/-- **agreement** (no hypothesis on who writes notes; rewrites and raced pushes allowed in `σ`):
+    after `σ`, then every clone pushes, then every clone fetches, every clone's `refs/notes/ai`
+    is the very notes commit the remote's ref points to — all repositories show identical
+    notes. `SingleWriter` is needed only for *which* note that is (`convergence`). -/
+theorem agreement (n : Nat) (σ : List Op) :
+    ∀ (j : Nat) (cl : Clone), (run (σ ++ pushAll n ++ fetchAll n) (init n)).clones[j]? = some cl →
+      cl.loc = (run (σ ++ pushAll n ++ fetchAll n) (init n)).remote := by
+  rw [run_append, run_append]
+  exact agreement_from n _ (inv_run σ _ (inv_init n)) (objId_run σ _ (inv_init n) (objId_init n))
+    (by rw [length_run σ _ (inv_init n)]; simp [init])
 
 /-- σ = commit by clone 0, push, fetch by clone 1, clone 1 rewrites the note. -/
 def foreignRewrite : List Op := [.commit 0, .push 0, .fetch 1, .rewrite 1 0]
@@ -309,6 +320,7 @@ example : (run [.push 0] (init 1)).remote = none := by decide
 #print axioms no_loss_values
 #print axioms convergence
 #print axioms convergence_held
+#print axioms agreement
 #print axioms convergence_needs_single_writer
 #print axioms race_rejects
 #print axioms race_partial
